@@ -67,5 +67,6 @@ var _ *openfgav1.Userset
 //@   props C02 C01
 //@   decreases height(userset)
 //@   ensures exact: result == onFirstSpine(userset)
-//@   loop 1 invariant forall i int :: 0 <= i && i < $i ==> !isThis(children[i])
-//@   loop 2 invariant forall i int :: 0 <= i && i < $i ==> !isThis(children[i])
+//@   -- invariants are rooted at the parameter (not at the local `children`) so that they survive refactorings
+//@   loop 1 invariant forall i int :: 0 <= i && i < $i ==> !isThis(userset.GetIntersection().GetChild()[i])
+//@   loop 2 invariant forall i int :: 0 <= i && i < $i ==> !isThis(userset.GetUnion().GetChild()[i])
